@@ -163,6 +163,69 @@ theorem C02_release_listed (st st' : State) (p : Plugin) (a : Adjustment) (id : 
   · rw [owner_clearAll_mem _ _ _ _ hcl] at h1; cases h1
   · exact ⟨hw, hm⟩
 
+/-- the same for environment variables -/
+theorem C02_release_listed_env (st st' : State) (p : Plugin) (a : Adjustment) (id : Cid)
+    (hk : st.kind = .create id) (n : Str)
+    (hrm : Item.env n ∈ removesAdj a)
+    (hin : ∃ e ∈ st.reply.env, e.key = n)
+    (h : adjust Quirks.fixed st p (some a) = .ok st') (w : Plugin)
+    (ho : st'.owners.owner id (.env n) = some w) : w = p ∧ Item.env n ∈ adjustSets a := by
+  have hcid : cidOf st.kind = id := by rw [hk]; rfl
+  obtain ⟨o, hc, rfl⟩ := (adjust_ok_iff _ st st' p a).1 h
+  rw [hcid] at hc
+  have hdel : n ∈ delKeys (a.env.map (·.key)) := by
+    unfold removesAdj at hrm
+    simp only [List.mem_append] at hrm
+    rcases hrm with (((hrm | hrm) | hrm) | hrm) | hrm
+    · simp at hrm
+    · simp at hrm
+    · simpa using hrm
+    · split at hrm <;> simp at hrm
+    · split at hrm <;> simp at hrm
+  have hcl : Item.env n ∈ adjustClears Quirks.fixed st a := by
+    unfold adjustClears
+    simp only [List.mem_append]
+    refine .inl (.inl (.inr ?_))
+    unfold envClears
+    obtain ⟨e, he, rfl⟩ := hin
+    exact List.mem_map.2 ⟨e, List.mem_filter.2 ⟨he, by simpa using hdel⟩, rfl⟩
+  rcases claimAll_owner_inv _ _ _ _ _ hc id (.env n) w ho with h1 | ⟨_, hm, hw⟩
+  · rw [owner_clearAll_mem _ _ _ _ hcl] at h1; cases h1
+  · exact ⟨hw, hm⟩
+
+/-- … and for devices (only read when the adjustment has a `linux` section, as in the code) -/
+theorem C02_release_listed_device (st st' : State) (p : Plugin) (a : Adjustment) (id : Cid)
+    (hk : st.kind = .create id) (d : Str)
+    (hrm : Item.device d ∈ removesAdj a)
+    (hin : ∃ x ∈ st.reply.devices, x.path = d)
+    (h : adjust Quirks.fixed st p (some a) = .ok st') (w : Plugin)
+    (ho : st'.owners.owner id (.device d) = some w) : w = p ∧ Item.device d ∈ adjustSets a := by
+  have hcid : cidOf st.kind = id := by rw [hk]; rfl
+  obtain ⟨o, hc, rfl⟩ := (adjust_ok_iff _ st st' p a).1 h
+  rw [hcid] at hc
+  have hdel : a.hasLinux = true ∧ d ∈ delKeys (a.devices.map (·.path)) := by
+    unfold removesAdj at hrm
+    simp only [List.mem_append] at hrm
+    rcases hrm with (((hrm | hrm) | hrm) | hrm) | hrm
+    · simp at hrm
+    · simp at hrm
+    · simp at hrm
+    · split at hrm <;> simp at hrm
+    · split at hrm
+      · rename_i hl; exact ⟨hl, by simpa using hrm⟩
+      · simp at hrm
+  have hcl : Item.device d ∈ adjustClears Quirks.fixed st a := by
+    unfold adjustClears
+    simp only [List.mem_append]
+    refine .inr ?_
+    rw [if_pos hdel.1]
+    unfold deviceClears
+    obtain ⟨x, hx, rfl⟩ := hin
+    exact List.mem_map.2 ⟨x, List.mem_filter.2 ⟨hx, by simpa using hdel.2⟩, rfl⟩
+  rcases claimAll_owner_inv _ _ _ _ _ hc id (.device d) w ho with h1 | ⟨_, hm, hw⟩
+  · rw [owner_clearAll_mem _ _ _ _ hcl] at h1; cases h1
+  · exact ⟨hw, hm⟩
+
 /-- **C02 (disjoint writers, per step).** A response whose adjustment names no item twice and
     sets only items that are unowned once its removals are applied is accepted. -/
 theorem C02_disjoint_partial (st : State) (p : Plugin) (a : Adjustment)
